@@ -8,8 +8,10 @@ RULE = ("every zero-argument constructor found by the translator in characterist
         "called at run time (under recover) and its object compared field by field with the statically translated record the "
         "Coq theorems are about (type, format, permissions, min / max / step with their Go type, default, unit; services: type, "
         "characteristic types in order) AND, independently of the translator, with gen/metadata.json read by the oracle (matched by constructor name; "
-        "type, format, permissions, min / max / step, unit, required characteristics); (" 
-        "characteristic types in order); all 11 accessory constructors are called. Enumeration is exhaustive over the catalog. "
+        "type, format, permissions, min / max / step, unit, required characteristics); the JSON of every constructed characteristic "
+        "(what a controller is served) must declare the same type / format / permissions / unit / min / max / step as the object; "
+        "all 11 accessory constructors are called with a minimal and with a fully populated Info and every service inside the "
+        "accessories is checked against the metadata's required characteristics (oracle only). Enumeration is exhaustive over the catalog. "
         "non-trivial = a constructor with bounds or a service")
 EXTRA_FILES = ("Gen/CatalogGen.v", "Gen/MetadataGen.v", "Proofs/CatalogProofs.v")
 ASSUMPTIONS = ["the translator recognises the constructor shapes of the generated and hand-written files (an unrecognised shape is reported, not skipped); its output is cross-checked against the run-time objects by this correspondence",
@@ -115,8 +117,29 @@ def oracle(c, obs):
         ts = m.group(2).split(",")
         if len(set(ts)) != len(ts):
             return "service %s contains two characteristics of the same type: %s" % (c["line"], obs)
-    if c["kind"] == "acc" and len(obs.split(" ")) != 11:
-        return "an accessory constructor failed: " + obs
+    if c["kind"] == "char" and " served=" in obs:
+        return "the characteristic of %s as served to a controller (its JSON) does not declare what the object declares: %s" % (c["line"], obs.split(" served=")[1][:120])
+    if c["kind"] == "acc":
+        accs = obs.split(" ")
+        if len(accs) != 22:
+            return "an accessory constructor failed: " + obs[:200]
+        bytype = {v["short"].upper(): v for v in metadata()["svc"].values()}
+        for a in accs:
+            name, nsvc, nch, svcs = a.split(":", 3)
+            svl = svcs.split("/")
+            if not svl or not svl[0].upper().startswith("3E["):
+                return "accessory constructor %s: the first service is not the accessory information service" % name
+            for sv in svl:
+                st, chs = sv[:-1].split("[", 1)
+                have = [x.upper() for x in chs.split(",") if x]
+                if len(set(have)) != len(have):
+                    return "accessory constructor %s: service %s contains two characteristics of the same type" % (name, st)
+                md = bytype.get(st.upper())
+                if md:
+                    missing = [r for r in md["req"] if r.upper() not in have]
+                    if missing:
+                        return "accessory constructor %s (Info variant %s): its service %s lacks the required characteristics %s" % (
+                            name.split(".")[0], name.split(".")[1], st, missing)
     return None
 
 
